@@ -16,7 +16,7 @@ Definition value_eqb (a b : value) : bool :=
   end.
 Definition obs_eqb (a b : obs) : bool :=
   match a, b with
-  | Created, Created | NewFailed, NewFailed | Accepted, Accepted | Rejected, Rejected | BadInst, BadInst => true
+  | Created, Created | NewFailed, NewFailed | NewArity, NewArity | Accepted, Accepted | Rejected, Rejected | BadInst, BadInst => true
   | Got x, Got y => value_eqb x y
   | _, _ => false
   end.
@@ -29,15 +29,20 @@ Fixpoint first_diff (k : nat) (a b : list obs) : option nat :=
   end.
 
 (* case = class table, history, what the implementation printed (one observation per op).
-   failing clause numbers: 1 = model vs implementation (tie), 2 = spec vs implementation
-   (property); 1000+k / 2000+k = position k (< 1000) of the first difference with spec / model. *)
+   result: [] when model, spec and implementation agree; otherwise [a; b; pm; ps] with
+   a = 1 when the model differs from the implementation (tie), else 0; b = 2 when the spec differs from the
+   implementation (property), else 0; pm / ps = position of the first difference with the model / the spec
+   (small numbers: a result full of 2000-deep unary naturals made Coq's read-back and printing very slow). *)
 Definition case := (ctable * list op * list obs)%type.
 Definition check_case (c : case) : list nat :=
   let '(tbl, ops, seen) := c in
   let m := snd (run fixture_sub get_property (init tbl) ops) in
   let s := spec_run fixture_sub tbl [] ops in
-  (match first_diff 0 m seen with None => [] | Some k => [1%nat; (2000 + k)%nat] end) ++
-  (match first_diff 0 s seen with None => [] | Some k => [2%nat; (1000 + k)%nat] end).
+  match first_diff 0 m seen, first_diff 0 s seen with
+  | None, None => []
+  | dm, ds => [match dm with Some _ => 1%nat | None => 0%nat end; match ds with Some _ => 2%nat | None => 0%nat end;
+               match dm with Some k => k | None => 0%nat end; match ds with Some k => k | None => 0%nat end]
+  end.
 
 (* the two other members that can be declared with the type parameter (recorded findings):
    class G<T> with the member typed T, instantiated G<A>, given v; `acc` = the implementation
